@@ -12,7 +12,7 @@
 From Coq Require Import ZArith QArith List Bool.
 From RV Require Import Base.Wire Base.Text Lang.PyAst Lang.PySem Lang.Infer Lang.InferGuard Lang.InferSpec
   Lang.InferComp Lang.Decl Lang.DeclSpec Lang.FnSpec Lang.AliasSpec Lang.StmtRef Lang.CtlSpec Lang.CallFree Lang.FnProto
-  Proofs.InferP Proofs.JoinP Proofs.DeclP Proofs.FnP Proofs.CompP Proofs.CtlP Proofs.DynP Proofs.FnProtoP.
+  Proofs.InferP Proofs.JoinP Proofs.DeclP Proofs.FnP Proofs.CompP Proofs.CtlP Proofs.DynP Proofs.FnProtoP Proofs.CallSiteP.
 Import ListNotations.
 Open Scope Z_scope.
 
@@ -750,3 +750,66 @@ Theorem C02_forward_call_result_refuted :
     c_store CInt (VFloat (5 # 2)) = Some (VInt 2).
 Proof. exact fwd_stale_result. Qed.
 Print Assumptions C02_forward_call_result_refuted.
+
+(* ---------------------------------------------------------------- which call sites are typed at all
+   [S] / [call] = whatever the user-function step of _infer_expr_type threads and does (it records the call signature and has
+   the variant for it parsed: _ensure_function_variant); the theorems hold for EVERY such step. *)
+
+(* a call of a user function types its arguments, then takes the step with exactly their labels *)
+Theorem C02_user_call_takes_the_variant_step :
+  forall (S : Type) (call : S -> tenv -> ident -> list ty -> S * option ty) C s G h args kws ats G1 s1,
+    tlookup h builtin_rets = None ->
+    thread (infer S call C) s G args = Some (ats, G1, s1) ->
+    infer S call C s G (ECall h args kws) =
+      Some (match snd (call s1 G1 h ats) with Some t => t | None => TInt end, G1, fst (call s1 G1 h ats)).
+Proof. exact user_call_takes_the_step. Qed.
+Print Assumptions C02_user_call_takes_the_variant_step.
+
+(* the same call nested in a builtin call (str / bool / abs / min / max / len / int / float ...): the builtin's fixed result
+   label is returned only AFTER the argument has been typed, so the step is taken with the same labels and the same state *)
+Theorem C02_call_nested_in_a_builtin_takes_the_variant_step :
+  forall (S : Type) (call : S -> tenv -> ident -> list ty -> S * option ty) C s G b t kwb h args kws ats G1 s1,
+    tlookup b builtin_rets = Some t ->
+    tlookup h builtin_rets = None ->
+    thread (infer S call C) s G args = Some (ats, G1, s1) ->
+    infer S call C s G (ECall b [ECall h args kws] kwb) = Some (t, G1, fst (call s1 G1 h ats)).
+Proof. exact builtin_around_user_call_takes_the_step. Qed.
+Print Assumptions C02_call_nested_in_a_builtin_takes_the_variant_step.
+
+Theorem C02_call_nested_first_in_a_two_argument_builtin :
+  forall (S : Type) (call : S -> tenv -> ident -> list ty -> S * option ty) C s G b t kwb h args kws ats G1 s1 e2 t2 G2 s2,
+    tlookup b builtin_rets = Some t ->
+    tlookup h builtin_rets = None ->
+    thread (infer S call C) s G args = Some (ats, G1, s1) ->
+    infer S call C (fst (call s1 G1 h ats)) G1 e2 = Some (t2, G2, s2) ->
+    infer S call C s G (ECall b [ECall h args kws; e2] kwb) = Some (t, G2, s2).
+Proof. exact builtin_around_user_call_first_of_two. Qed.
+Print Assumptions C02_call_nested_first_in_a_two_argument_builtin.
+
+(* non-vacuity: str(dbl(x)) with x a float records the signature (float) of dbl *)
+Example C02_call_nested_in_a_builtin_nonvacuous :
+  infer _ rec_call None [] G_x_float site_builtin = Some (TString, G_x_float, [(n_dbl, [TFloat])]).
+Proof. exact builtin_site_records. Qed.
+Print Assumptions C02_call_nested_in_a_builtin_nonvacuous.
+
+(* refuted for comparison operands (and `not`, and / or): they are never typed, whatever they contain; `flag = dbl(x) > 4`
+   with x a float records no signature of dbl, no float variant exists, C++ converts 2.5 to the int parameter
+   (finding F-C02-call-site-never-typed) *)
+Theorem C02_compare_operands_never_typed :
+  forall (S : Type) (call : S -> tenv -> ident -> list ty -> S * option ty) C s G l ops rs,
+    infer S call C s G (ECompare l ops rs) = Some (TBool, G, s).
+Proof. exact compare_never_types_its_operands. Qed.
+Print Assumptions C02_compare_operands_never_typed.
+
+Theorem C02_not_and_or_operands_never_typed :
+  forall (S : Type) (call : S -> tenv -> ident -> list ty -> S * option ty) C s G,
+    (forall a, infer S call C s G (EUn Not a) = Some (TBool, G, s)) /\
+    (forall op vs, infer S call C s G (EBoolOp op vs) = Some (TBool, G, s)).
+Proof. exact not_boolop_never_typed. Qed.
+Print Assumptions C02_not_and_or_operands_never_typed.
+
+Theorem C02_call_site_in_a_comparison_refuted :
+  infer _ rec_call None [] G_x_float (ECall n_dbl [EName n_x] []) = Some (TInt, G_x_float, [(n_dbl, [TFloat])]) /\
+  infer _ rec_call None [] G_x_float site_compare = Some (TBool, G_x_float, []).
+Proof. exact compare_site_records_nothing. Qed.
+Print Assumptions C02_call_site_in_a_comparison_refuted.
